@@ -173,10 +173,8 @@ def b_delitem(c, k):
     k = list_key(k)
     if not isinstance(k, int):
         raise AnyErr('del key type')
-    if k >= len(c):
-        return None
-    if k < -len(c):
-        raise AnyErr('del index')
+    if k >= len(c) or k < -len(c):
+        raise Unspec('del of an out-of-range position (a no-op today; the semantics do not pin it down)')
     del c[k]
 
 
@@ -258,10 +256,12 @@ def b_push(l, v):
 
 
 def b_pop(l, *i):
+    if not l:
+        raise LangErr('pop on empty list')
     try:
         return l.pop(int(i[0])) if i and i[0] is not None else l.pop()
     except IndexError:
-        raise LangErr('pop')
+        raise AnyErr('pop index out of range')
 
 
 def b_insert(l, i, v):
@@ -271,8 +271,9 @@ def b_insert(l, i, v):
 
 def b_remove(c, v):
     if isinstance(c, list):
-        if v in c:
-            c.remove(v)
+        if v not in c:
+            raise Unspec('remove of an absent value (a no-op today)')
+        c.remove(v)
     else:
         if not isinstance(v, str):
             raise Unspec('remove non-string key from dict')
